@@ -2,17 +2,22 @@ package checks
 
 import (
 	"encoding/json"
+	"errors"
 	"fmt"
 	"os"
 	"path/filepath"
 	"strings"
 	"testing"
+	"time"
 
 	"p9verif/evid"
+	"p9verif/memfs"
 	"p9verif/memtree"
 	"p9verif/refcodec"
 	"p9verif/refmodel"
 
+	"github.com/hugelgupf/p9/linux"
+	"github.com/hugelgupf/p9/p9"
 	"pgregory.net/rapid"
 )
 
@@ -105,6 +110,75 @@ func runFaultCase(c faultCase, st *faultStats) *fail {
 	return w.closeAll()
 }
 
+// clientErrnoCase: two calls of one client are refused by the backend at the
+// same time with different errors; each caller must get the errno of its own
+// request (the other one must not be affected).
+type clientErrnoCase struct {
+	Rounds int  `json:"rounds"`
+	Native bool `json:"native_walkgetattr"`
+}
+
+func runClientErrnoCase(c clientErrnoCase) *fail {
+	fs := memfs.New(memfs.Options{NativeWalkGetAttr: c.Native})
+	fs.Tree.Create(fs.Tree.Root, "a", 0o644, 0, 0)
+	fs.Tree.Create(fs.Tree.Root, "b", 0o644, 0, 0)
+	cl, closeFn, err := dialPipe(p9.NewServer(fs))
+	if err != nil {
+		return failf("harness-dial", "HARNESS-ERROR %v", err)
+	}
+	defer closeFn()
+	root, err := cl.Attach("")
+	if err != nil {
+		return failf("harness-attach", "HARNESS-ERROR %v", err)
+	}
+	defer root.Close()
+	_, fa, err := root.Walk([]string{"a"})
+	if err != nil {
+		return failf("harness-walk", "HARNESS-ERROR %v", err)
+	}
+	defer fa.Close()
+	_, fb, err := root.Walk([]string{"b"})
+	if err != nil {
+		return failf("harness-walk", "HARNESS-ERROR %v", err)
+	}
+	defer fb.Close()
+	for r := 0; r < c.Rounds; r++ {
+		ea, eb := 28+r%3, 122-r%2 // ENOSPC.., EDQUOT..
+		g := memfs.NewGate(func(cl *memfs.Call) bool { return cl.Op == "SetAttr" })
+		g.Repeat = true
+		fs.AddGate(g)
+		fs.FailNext("SetAttr", "/a", ea)
+		fs.FailNext("SetAttr", "/b", eb)
+		type res struct{ err error }
+		ra, rb := make(chan res, 1), make(chan res, 1)
+		go func() { ra <- res{fa.SetAttr(p9.SetAttrMask{Size: true}, p9.SetAttr{Size: 1})} }()
+		go func() { rb <- res{fb.SetAttr(p9.SetAttrMask{Size: true}, p9.SetAttr{Size: 2})} }()
+		for i := 0; i < 2; i++ {
+			select {
+			case <-g.Entered:
+			case <-time.After(20 * time.Second):
+				return failf("harness-gate", "HARNESS-ERROR the two calls did not reach the backend (round %d)", r)
+			}
+		}
+		fs.ClearGates() // both fail at the same moment
+		var a, b res
+		select {
+		case a = <-ra:
+		case <-time.After(20 * time.Second):
+			return failf("client-call-hangs:refused", "a refused call did not return (round %d)", r)
+		}
+		select {
+		case b = <-rb:
+		case <-time.After(20 * time.Second):
+			return failf("client-call-hangs:refused", "a refused call did not return (round %d)", r)
+		}
+		if !errors.Is(a.err, linux.Errno(ea)) || !errors.Is(b.err, linux.Errno(eb)) {
+			return failf("errno-of-another-request", "round %d: two calls were refused by the backend at the same time with errno %d and %d; the callers got %v and %v", r, ea, eb, a.err, b.err)
+		}
+	}
+	return nil
+}
+
 func genFaultSession(rt *rapid.T) faultCase {
 	c := faultCase{Native: rapid.Bool().Draw(rt, "native")}
 	if rapid.Bool().Draw(rt, "deep") {
@@ -151,6 +225,7 @@ func faultHash(c faultCase) uint64 {
 
 func init() {
 	replayRegistrars = append(replayRegistrars, func() {
+		registerReplay("C15/client-errno", runClientErrnoCase)
 		registerReplay("C15/faults", func(c faultCase) *fail { return runFaultCase(c, nil) })
 		registerReplay("C15/targeted", func(c faultCase) *fail { return runFaultCase(c, nil) })
 	})
@@ -284,6 +359,19 @@ func TestC15(t *testing.T) {
 					return
 				}
 			}
+		}
+	}
+	// two calls of one client refused at the same time with different errors
+	for rep := 0; rep < env.Pick(8, 80)/env.NShards+1; rep++ {
+		c := clientErrnoCase{Rounds: 40, Native: rep%2 == 0}
+		f := runClientErrnoCase(c)
+		h.Case(evid.HashJSON(c)+uint64(rep*64+env.Shard), true, "client:two-calls-refused-at-once")
+		if f != nil && strings.HasPrefix(f.Sig, "harness-") {
+			t.Errorf("HARNESS-ERROR %s", f.Msg)
+			continue
+		}
+		if h.report("client-errno", f, c) {
+			return
 		}
 	}
 	// (the replay file must carry the fault that struck, not just the session:
